@@ -140,8 +140,30 @@ Theorem C18_dict_tuple_key_collision : exists k1 k2 v1 v2 d,
   rt_len d = Ok (vint 1) /\ rt_dict_get d k1 = Ok (mk_just v2).
 Proof. exact dict_tuple_key_collision. Qed.
 
-(* left open (exercised by the correspondence and the oracle only) *)
-Definition C18_key_inj_int_tuple_statement : Prop := key_inj_int_tuple_statement.
+(* tostring is injective on ints and (nested) tuples of ints: the printed form is uniquely readable *)
+Theorem C18_key_inj_int_tuple : forall t a b, int_tuple_ty t = true -> vty t a -> vty t b ->
+  rt_tostring a = rt_tostring b -> a = b.
+Proof. exact tostring_inj_int_tuple. Qed.
+
+(* the statement that used to be left open: flat tuples of ints of one length *)
+Definition C18_key_inj_int_tuple_statement : Prop :=
+  forall zs zs' : list Z, length zs = length zs' ->
+  rt_tostring (VTuple (map vint zs)) = rt_tostring (VTuple (map vint zs')) -> zs = zs'.
+
+Theorem C18_key_inj_int_tuple_flat : C18_key_inj_int_tuple_statement.
+Proof. exact key_inj_int_tuple. Qed.
+
+(* hence every history on dicts and sets keyed by (int, int) *)
+Theorem C18_dict_history_int_tuple_keys : forall (V : Type) (embV : V -> value) ops m,
+  rt_drun (Z * Z) V emb_zz embV ops (rep_dict (Z * Z) V emb_zz embV m) =
+  Ok (rep_dict (Z * Z) V emb_zz embV (fst (d_run (Z * Z) V zz_eqb ops m)),
+      map (emb_dobs V embV) (snd (d_run (Z * Z) V zz_eqb ops m))).
+Proof. exact dict_history_int_tuple_keys. Qed.
+
+Theorem C18_set_history_int_tuple_keys : forall ops s,
+  rt_srun (Z * Z) emb_zz ops (rep_set (Z * Z) emb_zz s) =
+  Ok (rep_set (Z * Z) emb_zz (fst (s_run (Z * Z) zz_eqb ops s)), map emb_sobs (snd (s_run (Z * Z) zz_eqb ops s))).
+Proof. exact set_history_int_tuple_keys. Qed.
 
 (* ---- library-made values vs source-written values ---- *)
 
@@ -234,6 +256,10 @@ Print Assumptions C18_set_history_int_keys.
 Print Assumptions C18_key_inj_float_refuted.
 Print Assumptions C18_key_inj_tuple_str_refuted.
 Print Assumptions C18_dict_tuple_key_collision.
+Print Assumptions C18_key_inj_int_tuple.
+Print Assumptions C18_key_inj_int_tuple_flat.
+Print Assumptions C18_dict_history_int_tuple_keys.
+Print Assumptions C18_set_history_int_tuple_keys.
 Print Assumptions C18_lib_maybe_eq.
 Print Assumptions C18_lib_none_is_src_none.
 Print Assumptions C18_lib_none_eq.
